@@ -1108,7 +1108,8 @@ impl Sys {
         } else {
             // (several user properties, one name repeated non-adjacently, names out of order)
             vec![
-                Prop::str(P_REASON_STRING, tag),
+                // (every second operation: a Reason String of length 0 - present, not absent; round 16, C05o)
+                Prop::str(P_REASON_STRING, if i % 2 == 1 { "" } else { tag }),
                 Prop::user("op", tag),
                 Prop::user("b", "1"),
                 Prop::user("op", "again"),
@@ -1145,7 +1146,9 @@ impl Sys {
                 reasons: s
                     .filters
                     .iter()
-                    .map(|_| if reason >= 0x80 { 0x80 } else { 0 })
+                    .enumerate()
+                    // (every second multi-filter subscription: granted and refused filters mixed; round 16, C14o)
+                    .map(|(j, _)| if reason >= 0x80 || (i % 2 == 1 && j % 2 == 1) { 0x80 } else { 0 })
                     .collect(),
             }),
             (OpSpec::Unsubscribe(s), St::AwaitAck) => Some(SPacket::Unsuback {
